@@ -186,6 +186,17 @@ func (cs *ContractSet) loadFile(path string) error {
 				}
 			}
 			fd := &FrameDecl{Kind: r.kw, Target: strings.TrimSpace(txt[:i]), Line: r.line}
+			// optional list of the properties whose check decides the declaration: "T.f (C12 C20)"; default C01
+			if j := strings.Index(fd.Target, "("); j >= 0 && strings.HasSuffix(fd.Target, ")") && !strings.HasPrefix(fd.Target, "(") {
+				fd.Props = strings.Fields(fd.Target[j+1 : len(fd.Target)-1])
+				fd.Target = strings.TrimSpace(fd.Target[:j])
+			} else if j := strings.LastIndex(fd.Target, " ("); j >= 0 && strings.HasSuffix(fd.Target, ")") {
+				fd.Props = strings.Fields(fd.Target[j+2 : len(fd.Target)-1])
+				fd.Target = strings.TrimSpace(fd.Target[:j])
+			}
+			if len(fd.Props) == 0 {
+				fd.Props = []string{"C01"}
+			}
 			for _, x := range splitTop(txt[i+2:]) {
 				if x = strings.TrimSpace(x); x != "" {
 					fd.Allowed = append(fd.Allowed, x)
